@@ -1685,6 +1685,110 @@ pub fn run_c10(tier: Tier) -> i32 {
     });
     fams.push(json!({"family": "game histories over a shuffle alphabet x continuations, go depth 1/2 searchmoves m", "histories": jobs.len(), "engine_queries": queries.load(Ordering::Relaxed), "queries_whose_move_completes_a_threefold": threefold_queries.load(Ordering::Relaxed), "skipped_root_already_threefold": skipped_root_threefold.load(Ordering::Relaxed), "secs": t0.elapsed().as_secs_f64()}));
 
+    // ---- (a1) lopsided material and WHOLE-ROOT searches: one side is far better off than a draw, both
+    // shuffle (out and back), and the search of the whole root (all moves on one window, so the later
+    // moves are searched with alpha already raised) must value the lines that complete a third
+    // occurrence as draws all the same. Histories: at every ply the reverse of the mover's previous
+    // move and its first two quiet piece moves; go depth 2 against the reference root value.
+    let t0 = Instant::now();
+    {
+        let lop_bases = ["7k/1R6/7P/8/8/2K5/8/8 w - - 0 1", "6k1/8/8/8/8/8/1Q6/K7 w - - 0 40", "7k/8/8/8/8/8/R7/K7 b - - 4 50", "4k3/8/8/8/8/2b5/1R6/4K2R w K - 3 30"];
+        let lop_len = if tier == Tier::Quick { 6 } else { 8 };
+        let mut lop_jobs: Vec<(Pos, Vec<Mv>)> = Vec::new();
+        for f in lop_bases {
+            let b0 = Pos::from_fen(f).unwrap();
+            for base in [b0.flip(), b0] {
+                let mut layer: Vec<Vec<Mv>> = vec![vec![]];
+                for _ in 0..lop_len {
+                    let mut next = Vec::new();
+                    for h in &layer {
+                        let mut p = base.clone();
+                        for m in h {
+                            p = p.make(m);
+                        }
+                        let legal = p.legal();
+                        let mut cands: Vec<Mv> = Vec::new();
+                        if h.len() >= 2 {
+                            let prev = h[h.len() - 2];
+                            if let Some(back) = legal.iter().find(|m| m.from == prev.to && m.to == prev.from && !m.is_capture()) {
+                                cands.push(*back);
+                            }
+                        }
+                        let mut quiet: Vec<Mv> = legal.iter().filter(|m| !m.is_capture() && m.piece != PAWN && !m.is_castle && p.make(m).has_legal_move()).copied().collect();
+                        quiet.sort_by_key(|m| m.uci());
+                        for m in quiet {
+                            if cands.len() < 3 && !cands.iter().any(|c| c.uci() == m.uci()) {
+                                cands.push(m);
+                            }
+                        }
+                        for m in cands {
+                            let mut nh = h.clone();
+                            nh.push(m);
+                            next.push(nh);
+                        }
+                    }
+                    for h in &next {
+                        if h.len() >= 4 {
+                            lop_jobs.push((base.clone(), h.clone()));
+                        }
+                    }
+                    layer = next;
+                }
+            }
+        }
+        let lop_q = AtomicU64::new(0);
+        let lop_changed = AtomicU64::new(0);
+        par_map_fine(&lop_jobs, |(base, hist)| {
+            let mut line: Vec<Pos> = vec![base.clone()];
+            for m in hist {
+                let q = line.last().unwrap().make(m);
+                line.push(q);
+            }
+            let root = line.last().unwrap().clone();
+            if RefSearch::occurrences(&line) >= 3 || !root.has_legal_move() {
+                return;
+            }
+            let moves: Vec<String> = hist.iter().map(|m| m.uci()).collect();
+            let eval = |q: &Pos, l: bool| eval_hook(q, l);
+            let refval = |c: i32, with_history: bool| -> i32 {
+                let mut rs = RefSearch::new(&eval);
+                if with_history {
+                    rs.history = line[..line.len() - 1].to_vec();
+                }
+                rs.repetition = Some(RepRule { draw, contempt: c });
+                rs.root(&root, 2, None).0
+            };
+            let (want, want2, without) = (refval(contempt, true), refval(-contempt, true), refval(contempt, false));
+            if want != without {
+                lop_changed.fetch_add(1, Ordering::Relaxed);
+            }
+            lop_q.fetch_add(1, Ordering::Relaxed);
+            let mut sess = Session::new(false);
+            let out = search_depth(&mut sess, base, &moves, 2, "");
+            sess.quit();
+            let case = |extra: Value| json!({"kind": "history_whole_root", "base": base.to_fen(), "history": moves, "depth": 2, "detail": extra});
+            if let Some(pr) = &out.problem {
+                rep.report(format!("no_answer:{}", short(pr)), case(json!({"problem": pr})));
+                return;
+            }
+            let got = match out.score {
+                Some(Score::Centipawn { score }) => Some(score),
+                _ => None,
+            };
+            let mut ok = got == Some(want) || got == Some(want2);
+            if verif::is_checkmate_value(want) || verif::is_checkmate_value(want2) {
+                ok = out.score == Some(verif::score_from_value(want, &board_of(&root))) || out.score == Some(verif::score_from_value(want2, &board_of(&root)));
+            }
+            if !ok {
+                rep.report("whole_root_value_differs_from_reference_with_repetition_rule:depth2".to_string(), case(json!({"expected": want, "expected_with_opposite_contempt_sign": want2, "reference_without_the_history": without, "actual": score_json(&out.score), "bestmove": out.best})));
+            }
+        });
+        fams.push(json!({"family": "lopsided material, shuffle histories of 4..N plies, go depth 2 on the whole root against the reference root value with the repetition rule", "bases_incl_flips": lop_bases.len() * 2, "histories": lop_jobs.len(), "engine_queries": lop_q.load(Ordering::Relaxed), "queries_where_the_history_changes_the_reference_value": lop_changed.load(Ordering::Relaxed), "secs": t0.elapsed().as_secs_f64()}));
+        if lop_changed.load(Ordering::Relaxed) == 0 {
+            rep.machinery("vacuous: no lopsided history changed the root value");
+        }
+    }
+
     // ---- (a2) the history belongs to the position command that supplied it: after a game given as
     // `position <base> moves ...` the same engine gets `position fen <a position of that game>` with
     // no move list (what a GUI sends when the user switches to analysis, or after ucinewgame). The
@@ -2231,6 +2335,41 @@ pub fn replay(id: &str, case: &Value) -> i32 {
             println!("engine {:?}, reference {:?}", out.score, wants);
             if !ok {
                 rep.report("value_differs_from_reference_with_repetition_rule".to_string(), json!({"kind": "history", "base": p.to_fen(), "history": moves, "searchmove": sm, "depth": depth}));
+            }
+        }
+        ("C10", "history_whole_root") => {
+            let moves: Vec<String> = case["history"].as_array().map(|a| a.iter().map(|v| v.as_str().unwrap_or("").to_string()).collect()).unwrap_or_default();
+            let mut line = vec![p.clone()];
+            for u in &moves {
+                let q = line.last().unwrap().clone();
+                match q.find_legal_uci(u) {
+                    Some(m) => line.push(q.make(&m)),
+                    None => return 2,
+                }
+            }
+            let root = line.last().unwrap().clone();
+            let mut sess = Session::new(false);
+            let out = search_depth(&mut sess, &p, &moves, depth, "");
+            sess.quit();
+            let eval = |q: &Pos, l: bool| eval_hook(q, l);
+            let mut ok = false;
+            let mut wants = Vec::new();
+            for c in [verif::contempt(), -verif::contempt()] {
+                let mut rs = RefSearch::new(&eval);
+                rs.history = line[..line.len() - 1].to_vec();
+                rs.repetition = Some(RepRule { draw: verif::draw_score(), contempt: c });
+                let (w, per_move) = rs.root(&root, depth, None);
+                wants.push(w);
+                if c > 0 {
+                    println!("reference values of the root moves: {:?}", per_move.iter().map(|(m, v)| format!("{} {}", m.uci(), v)).collect::<Vec<_>>());
+                }
+                if out.score == Some(Score::Centipawn { score: w }) || (verif::is_checkmate_value(w) && out.score == Some(verif::score_from_value(w, &board_of(&root)))) {
+                    ok = true;
+                }
+            }
+            println!("go depth {} on the whole root after the history: engine {:?} {:?}, reference root value {:?}", depth, out.score, out.best, wants);
+            if !ok {
+                rep.report("whole_root_value_differs_from_reference_with_repetition_rule".to_string(), json!({"kind": "history_whole_root", "base": p.to_fen(), "history": moves, "depth": depth}));
             }
         }
         ("C10", "game") => {
